@@ -40,7 +40,8 @@ Fixpoint nca (e : expr) {struct e} : bool :=
               end) && go r
          end) entries
   | ECond c t f => nca c && nca t && nca f
-  | EOutput a | EUn _ a | EFact a | ESpread a | EDot a _ => nca a
+  | EOutput _ => false                   (* never built by the parser; its free variables are not collected *)
+  | EUn _ a | EFact a | ESpread a | EDot a _ => nca a
   | ECall f args =>
       nca f && (fix go (l : list expr) : bool :=
                   match l with [] => true | a :: r => nca a && go r end) args
@@ -48,6 +49,8 @@ Fixpoint nca (e : expr) {struct e} : bool :=
   | EBin _ l r => nca l && nca r
   | _ => true
   end.
+Lemma nca_output_false : forall e, nca (EOutput e) = true -> False.
+Proof. intros e H; discriminate H. Qed.
 
 (* hereditarily closed values, relative to the current function-cell names *)
 Fixpoint closed_value (st : store) (v : value) {struct v} : Prop :=
